@@ -52,6 +52,17 @@ COLLISIONS = [
     ("inheritance-loop-3-with-outsiders", ["module A\ninterface D1 : B::X {}\ninterface D2 : B::Z {}\n", "module B\ninterface X : Y {}\n", "module B\ninterface Y : Z {}\ninterface Z : X {}\n"]),
     ("containment-cycle-with-outsider", ["module A\nstruct Holder { x: B::X }\n", "module B\nstruct X { y: Y? }\n", "module B\nstruct Y { x: X }\n"]),
     ("alias-loop-with-outsider", ["module A\ntypealias Out = Sequence<B::P>\nstruct U { o: Out }\n", "module B\ntypealias P = Sequence<Q>\n", "module B\ntypealias Q = Sequence<P>\n"]),
+    # the same spelled-out name reached from two scopes ("T" from A::B and "B::T" from A both spell A::B::T, which does not exist):
+    # whatever one file's lookup leaves behind must not answer the other's; the two candidates differ in what they may be used for
+    ("relative-vs-qualified-same-spelling", ["module A::B\nstruct X { f: Dictionary<T, int32> }\n", "module A\ncompact struct T { id: int32 }\nstruct Y { g: B::T }\n",
+                                            "module B\nstruct T { name: string }\n"]),
+    ("relative-vs-qualified-same-spelling-2", ["module A::B\ninterface I : T {}\n", "module A\ninterface T {}\nstruct Y { g: B::T }\n", "module B\nstruct T { x: bool }\n"]),
+    ("relative-vs-qualified-three-levels", ["module A::B::C\nstruct X { t: T, u: C::T? }\n", "module A\nstruct T { a: bool }\n", "module A::B\nstruct W { t: C::T }\n", "module C\nenum T { E }\n"]),
+    # the same lint arising in several files of one module, about one deprecated element: every use is reported, in every order
+    ("deprecated-users-in-one-module", ["module A\n[deprecated] struct Old {}\n[deprecated] interface OldI {}\n", "module A\ntypealias X = Old\ninterface I1 : OldI {}\n",
+                                       "module A\ntypealias Y = Old\ninterface I2 : OldI {}\n", "module A\ntypealias Z = Sequence<Old>\nstruct U { o: Old, p: Old }\n"]),
+    ("broken-links-same-target-many-files", ["module A\n/// {@link Nope}\nstruct S1 {}\n", "module A\n/// {@link Nope}\nstruct S2 {}\n/// {@link Nope}\nstruct S3 {}\n",
+                                            "module A::B\n/// {@link Nope}\n/// @see Nope\nstruct S1 {}\n"]),
     ("operation-vs-parameter-scope", ["module A\ninterface I { op(op: bool) -> (op: bool, r: bool) }\n", "module A\n/// {@link I::op}\nstruct L {}\n"]),
 ]
 
